@@ -143,3 +143,5 @@ Definition chk_file_seek (bytes : list N) (maxArr : Z) : bool :=
   | DErr ESeek _ => true
   | _ => false
   end.
+
+Definition chk_detect (b : list N) (code : N) : bool := detect_content_type b =? code.
